@@ -115,6 +115,10 @@ func enumCases() []enumCase {
 		{Name: "fail_alias_two_actions", Src: enumDef{"int", []enumMember{{"Red", "0"}, {"Green", "1"}, {"Blue", "2"}, {"Azure", "2"}}}, Tgt: rgb("int", "7", "8", "9"),
 			Lines: []string{"enum:map Blue @error", "enum:map Azure @ignore"}, Mapping: same, Fail: "members with equal values map to different actions"},
 		{Name: "fail_no_unknown", Src: rgb("int", "0", "1", "2"), Tgt: rgb("int", "7", "8", "9"), Mapping: same, Unknown: "none", Fail: "enum:unknown missing"},
+		// exclude lines are matched one by one: a line for another type of the package and a line for the same type
+		// name in another package do not exclude this enum
+		{Name: "exclude_lines_not_combined", Src: rgb("int", "0", "1", "2"), Tgt: rgb("int", "7", "8", "9"), Mapping: same,
+			ExtraConv: []string{"enum:exclude corpus/GRP/pfxsrc:Nope", "enum:exclude corpus/GRP/elsewhere:Color", "enum:exclude Flags"}},
 		// enum detection disabled: plain copy of the basic value
 		{Name: "enum_no", Src: rgb("int", "0", "1", "2"), Tgt: rgb("int", "7", "8", "9"), NoEnum: true, ExtraConv: []string{"enum no"}},
 		{Name: "enum_exclude", Src: rgb("int", "0", "1", "2"), Tgt: rgb("int", "7", "8", "9"), NoEnum: true, ExtraConv: []string{"enum:exclude corpus/GRP/pfxsrc:Color"}},
@@ -288,6 +292,18 @@ func FamilyEnum(thorough bool) []*Conv {
 			Aux:          map[string]string{"pfxsrc": ec.Src.source("pfxsrc", "Color"), "pfxtgt": ec.Tgt.source("pfxtgt", "Color")},
 			Imports:      []string{`pfxsrc "corpus/GRP/pfxsrc"`, `pfxtgt "corpus/GRP/pfxtgt"`},
 			Solo:         true,
+		})
+	}
+	// enums declared in the converter's own package with an unexported member; output into that package
+	{
+		es := &EnumSpec{Unknown: "@error", Map: []EnumArm{{"0", "10"}, {"1", "20"}, {"2", "30"}}}
+		out = append(out, &Conv{
+			ID: "enum/unexported_member_same_package/variable", Family: "enum", Format: "variable",
+			Params: "source PFXColA", Results: "(PFXColB, error)",
+			Decls:       "type PFXColA int\n\nconst (\n\tPFXARed PFXColA = iota\n\tPFXAGreen\n\tpfxaHidden\n)\n\ntype PFXColB int\n\nconst (\n\tPFXBRed PFXColB = 10 * (iota + 1)\n\tPFXBGreen\n\tpfxbHidden\n)\n",
+			ConvLines:   []string{"enum:unknown @error"},
+			MethodLines: []string{"enum:map PFXARed PFXBRed", "enum:map PFXAGreen PFXBGreen", "enum:map pfxaHidden pfxbHidden"},
+			Spec:        &Spec{Enums: map[string]*EnumSpec{"PFXColA→PFXColB": es}},
 		})
 	}
 	// explicit enum:map entries survive when the converter's methods are built more than once (a helper of a
